@@ -9,12 +9,17 @@
    * the folding the dense 1+2-body kernels rest on (`h1e -= einsum('ikkj->ij', g)`, `g = -moveaxis(h2e, 1, 2)`,
      then products of single excitations): p† q† r s = δ_qr p† s − (p† r)(q† s) on every determinant,
      as an identity of signed results and as an identity of all matrix elements   : C01_two_body_fold(_eval)
-  The dense routes are otherwise tied to the same Spec by the exact correspondence run; the foldings of
-  the three- and four-body kernels are not proved (DESIGN.md §5 C01).
+   * the folding of the three-body kernels (`_apply_array_spatial123`, `_apply_array_spin123`: products of three
+     single excitations plus two-body and one-body corrections): (p†s)(q†t)(r†u) = −p†q†r†stu + δ_sr p†q†tu
+     − δ_tr p†q†su − δ_sq p†r†tu + δ_sq δ_tr p†u, obtained as the normal form the proved Wick driver computes
+     for that product                                                              : C01_three_body_fold
+   * the four-body product (p†t)(q†u)(r†v)(s†w) has 15 normal-ordered pieces       : C01_four_body_fold
+  The dense routes are otherwise tied to the same Spec by the exact correspondence run.
 -/
 import FqeVerif.Lemmas.Embed
 import FqeVerif.Lemmas.Car
 import FqeVerif.Lemmas.TermAlgebra
+import FqeVerif.Lemmas.Wick
 import FqeVerif.Model.Term
 namespace C01
 open Fock Model
@@ -118,21 +123,6 @@ example : TermOk 2 [(1, true), (3, false)] ∧
   simp at hf
   rcases hf with rfl | rfl <;> decide
 
-/-- matrix element `⟨f| r⟩` of a signed single-determinant result against an arbitrary integer-valued bra -/
-def evalRes (f : Nat → Nat → Int) (r : Option (Bool × Nat × Nat)) : Int :=
-  match r with
-  | none => 0
-  | some (s, a, b) => if s then - f a b else f a b
-
-theorem evalRes_negRes (f : Nat → Nat → Int) (r : Option (Bool × Nat × Nat)) :
-    evalRes f (negRes r) = - evalRes f r := by
-  unfold evalRes negRes
-  cases r with
-  | none => rfl
-  | some x =>
-    obtain ⟨s, a, b⟩ := x
-    cases s <;> simp
-
 /-- the two-body folding used by every dense kernel, on every determinant `|a,b⟩` and for any four modes:
     `q ≠ r`: `p† q† r s = −(p† r)(q† s)`;
     `q = r`: exactly one of `p† q† q s`, `(p† q)(q† s)` survives and it equals `p† s` -/
@@ -176,5 +166,53 @@ theorem C01_two_body_fold_eval (f : Nat → Nat → Int) (p q r s a b : Nat) :
 example : applyTerm [(0, true), (2, true), (2, false), (4, false)] 0b110 0 = some (true, 0b011, 0) ∧
     applyTerm [(0, true), (4, false)] 0b110 0 = some (true, 0b011, 0) ∧
     applyTerm [(0, true), (6, true), (2, false), (4, false)] 0b110 0 ≠ none := by decide
+
+/-- three-body folding: a product of three single excitations in terms of normal-ordered strings, on every
+    determinant and for every six modes (any coincidences among them) -/
+theorem C01_three_body_fold (f : Nat → Nat → Int) (p q r s t u a b : Nat) :
+    evalRes f (applyTerm [(p, true), (s, false), (q, true), (t, false), (r, true), (u, false)] a b) =
+      - evalRes f (applyTerm [(p, true), (q, true), (r, true), (s, false), (t, false), (u, false)] a b)
+      + (if s = r then evalRes f (applyTerm [(p, true), (q, true), (t, false), (u, false)] a b) else 0)
+      - (if t = r then evalRes f (applyTerm [(p, true), (q, true), (s, false), (u, false)] a b) else 0)
+      - (if s = q then evalRes f (applyTerm [(p, true), (r, true), (t, false), (u, false)] a b) else 0)
+      + (if s = q ∧ t = r then evalRes f (applyTerm [(p, true), (u, false)] a b) else 0) := by
+  have nf : wickNormalForm [(0, true), (3, false), (1, true), (4, false), (2, true), (5, false)] =
+      [⟨[], [(0, true), (1, true), (2, true), (3, false), (4, false), (5, false)], true⟩,
+       ⟨[(3, 2)], [(0, true), (1, true), (4, false), (5, false)], false⟩,
+       ⟨[(4, 2)], [(0, true), (1, true), (3, false), (5, false)], true⟩,
+       ⟨[(3, 1)], [(0, true), (2, true), (4, false), (5, false)], true⟩,
+       ⟨[(3, 1), (4, 2)], [(0, true), (5, false)], false⟩] := by decide
+  have h := wnormalize_sound (fun l => [p, q, r, s, t, u].getD l 0) f a b
+    ([(0, true), (3, false), (1, true), (4, false), (2, true), (5, false)].length *
+      [(0, true), (3, false), (1, true), (4, false), (2, true), (5, false)].length + 1)
+    [⟨[], [(0, true), (3, false), (1, true), (4, false), (2, true), (5, false)], false⟩]
+  unfold wickNormalForm at nf
+  rw [nf] at h
+  simp only [evalList, evalItem, deltasOk, itemTerm, List.map_cons, List.map_nil, List.sum_cons, List.sum_nil,
+    List.all_cons, List.all_nil, List.getD_cons_zero, List.getD_cons_succ, Bool.and_true, beq_iff_eq,
+    Bool.and_eq_true, if_true, Bool.false_eq_true, if_false, Int.add_zero] at h
+  rw [← h]
+  by_cases h1 : s = r <;> by_cases h2 : t = r <;> by_cases h3 : s = q <;> simp [h1, h2, h3] <;> omega
+
+/-- the product of four single excitations `(p†t)(q†u)(r†v)(s†w)` equals the signed sum of the 15 normal-ordered
+    pieces (1 four-body, 6 three-body, 7 two-body, 1 one-body string, with their Kronecker deltas) that the Wick
+    driver lists — the decomposition `_apply_array_spatial1234` / `_apply_array_spin1234` fold into `nh1e`, `nh2e`,
+    `nh3e` — on every determinant and for every eight modes -/
+theorem C01_four_body_fold (ρ : Nat → Nat) (f : Nat → Nat → Int) (a b : Nat) :
+    let pattern : List (Nat × Bool) :=
+      [(0, true), (4, false), (1, true), (5, false), (2, true), (6, false), (3, true), (7, false)]
+    evalList ρ f a b (wickNormalForm pattern) =
+        evalRes f (applyTerm (pattern.map (fun o => (ρ o.1, o.2))) a b) ∧
+      (wickNormalForm pattern).length = 15 ∧
+      (wickNormalForm pattern).all (fun it => isNormal it.ops) = true ∧
+      ((wickNormalForm pattern).map (fun it => it.ops.length / 2)).count 4 = 1 ∧
+      ((wickNormalForm pattern).map (fun it => it.ops.length / 2)).count 3 = 6 ∧
+      ((wickNormalForm pattern).map (fun it => it.ops.length / 2)).count 2 = 7 ∧
+      ((wickNormalForm pattern).map (fun it => it.ops.length / 2)).count 1 = 1 := by
+  intro pattern
+  refine ⟨?_, by decide, by decide, by decide, by decide, by decide, by decide⟩
+  unfold wickNormalForm
+  rw [wnormalize_sound]
+  simp [evalList, evalItem, deltasOk, itemTerm]
 
 end C01
